@@ -141,7 +141,7 @@ impl Run {
       .janitor_tick_interval(Duration::from_millis(if cfg.maint_always { 1000 } else { 50 }))
       .maintenance_chance(if cfg.maint_always { 1 } else { 1 << 31 })
       .maintenance_on_introspection(cfg.introspect);
-    b = apply_policy(b, cfg.pol, cfg.capacity, cfg.shards);
+    b = apply_policy(b, cfg.pol, cfg.capacity, cfg.shards.next_power_of_two());
     let rec = if cfg.listener {
       let r = Arc::new(Recorder::default());
       b = b.eviction_listener(RecListener(r.clone()));
@@ -220,14 +220,14 @@ impl Run {
       removed_by_op: Vec::new(),
       removed_maybe: Vec::new(),
       sync_from: 0,
-      pending: vec![0; s.cfg.shards],
+      pending: vec![0; s.cfg.shards.next_power_of_two()],
       overflowed: false,
       contend: std::cell::Cell::new(false),
       hold_keys: {
-        let mut v: Vec<Option<u32>> = vec![None; s.cfg.shards];
+        let mut v: Vec<Option<u32>> = vec![None; s.cfg.shards.next_power_of_two()];
         for i in 0..4096u32 {
           let k = HOLD_BASE + i;
-          let sh = key_hash(s.cfg.collide, k) as usize & (s.cfg.shards - 1);
+          let sh = key_hash(s.cfg.collide, k) as usize & (s.cfg.shards.next_power_of_two() - 1);
           if v[sh].is_none() {
             v[sh] = Some(k);
           }
@@ -302,7 +302,7 @@ impl Run {
   }
 
   fn note_event(&mut self, key: u32) {
-    let sh = key_hash(self.cfg.collide, key) as usize & (self.cfg.shards - 1);
+    let sh = key_hash(self.cfg.collide, key) as usize & (self.cfg.shards.next_power_of_two() - 1);
     self.pending[sh] += 1;
     if self.pending[sh] > 512 {
       self.overflowed = true;
@@ -312,7 +312,7 @@ impl Run {
   fn note_drain(&mut self, key: Option<u32>, n: u32) {
     match key {
       Some(k) => {
-        let sh = key_hash(self.cfg.collide, k) as usize & (self.cfg.shards - 1);
+        let sh = key_hash(self.cfg.collide, k) as usize & (self.cfg.shards.next_power_of_two() - 1);
         self.pending[sh] = self.pending[sh].saturating_sub(n);
       }
       None => {
@@ -1020,7 +1020,7 @@ impl Run {
   fn nonempty_shards(&self) -> usize {
     let mut s = BTreeSet::new();
     for k in self.live.keys() {
-      s.insert(key_hash(self.cfg.collide, *k) as usize & (self.cfg.shards - 1));
+      s.insert(key_hash(self.cfg.collide, *k) as usize & (self.cfg.shards.next_power_of_two() - 1));
     }
     s.len()
   }
@@ -1288,7 +1288,7 @@ impl Run {
     if let Some(t) = self.cfg.tti_ms {
       b = b.time_to_idle(Duration::from_millis(t));
     }
-    b = apply_policy(b, pol, self.cfg.capacity, self.cfg.shards);
+    b = apply_policy(b, pol, self.cfg.capacity, self.cfg.shards.next_power_of_two());
     // the builder either leaves its capacity at the default (what the documentation shows: the snapshot's
     // capacity applies) or states the very capacity the snapshot carries; both sync and async entry points
     if bcap {
@@ -1354,9 +1354,9 @@ impl Run {
       Err(QuiesceErr::Inconclusive(_)) => self.inconclusive += 1,
       Err(QuiesceErr::Violation(clause, msg)) => {
         // diagnosis: restored entries and the further inserts share the 512-slot write-event buffer
-        let mut per = vec![0u32; self.cfg.shards];
+        let mut per = vec![0u32; self.cfg.shards.next_power_of_two()];
         for k in in_snap.keys().copied().chain(extra.iter().map(|(k, _)| 500 + *k)) {
-          per[key_hash(self.cfg.collide, k) as usize & (self.cfg.shards - 1)] += 1;
+          per[key_hash(self.cfg.collide, k) as usize & (self.cfg.shards.next_power_of_two() - 1)] += 1;
         }
         if clause == "over_capacity" && per.iter().any(|n| *n > 512) {
           return Err(fail("C17", "restore", "restored_over_capacity_after_event_buffer_overflow", format!("[{api} {}] {msg}", pol.name())));
